@@ -107,6 +107,6 @@ def main(c):
              "every pair, empty/full, 150 random subsets; thorough: all 2^15) x start-up, three frames exercising RGB/underline/"
              "width fallbacks, Close; plus terminal-name / DA1-class sessions, sessions with event queues of 1..16 entries and "
              "sessions whose XTGETTCAP / tertiary-DA replies use lower- or mixed-case hex digits, sessions drawing method-dependent clusters through "
-             "the pager / text input widgets, sessions whose OSC 176 reply carries ids with semicolons; palette = RGB->index fallback for a boundary-rich grid (quick) or all 2^24 colours (thorough), "
+             "the pager / text input widgets (each also as the second Vaxis of its process, after one on a terminal measuring the other way), sessions whose OSC 176 reply carries ids with semicolons; palette = RGB->index fallback for a boundary-rich grid (quick) or all 2^24 colours (thorough), "
              "256 colours per event; distinct = distinct descriptor",
         exhaustive=(c.tier == "thorough"))
